@@ -24,6 +24,9 @@ def run(prop, tier, seed):
     if prop == 'C19':
         from . import engine_threads
         return engine_threads.run(prop, tier, seed)
+    if prop == 'C14':
+        from . import engine_transport
+        return engine_transport.run(prop, tier, seed)
     if prop == 'C15':
         from . import engine_batteries
         return engine_batteries.run(prop, tier, seed)
@@ -54,6 +57,9 @@ def replay(path):
     if eng == 'threads':
         from . import engine_threads
         return engine_threads.replay(path)
+    if eng == 'transport':
+        from . import engine_transport
+        return engine_transport.replay(path)
     if eng == 'batteries':
         from . import engine_batteries
         return engine_batteries.replay(path)
